@@ -256,6 +256,45 @@ class Model:
         return formula.evaluate(S["expr"], env)
 
 
+def check_extremes(prog, res, R="C10.X"):
+    """min/max are folded from the first/last centroid only after the centroid list has its final order, and the merged weight
+    is added to the total (shared by C10 and C15)"""
+    # ---------------- C10.X extremes after the final ordering; merged weight added
+    n_x = 0
+    for f in C.fns_of(prog, "tdigest::sketch::TDigestMut"):
+        s = Sym(prog, f, ifconv=False)
+        stores = []
+        for (ff, b, kind, place, rv, span, adt, fld) in sym.field_stores(prog, adt="tdigest::sketch::TDigestMut", fns=[f]):
+            if fld in ("min", "max") and rv is not None:
+                e = C.resolve_var(prog, f, s.rvalue(rv), s)
+                if sym.contains(e, lambda t: t[0] == "index" or (t[0] == "call" and t[1].endswith("index"))) and "centroids" in show(e):
+                    stores.append((b, fld, e, span))
+        if not stores:
+            continue
+        reorder = [b for b, st in f.calls() if (st.get("callee") or "").rsplit("::", 1)[-1] in ("reverse", "sort_by", "sort_unstable_by", "sort", "sort_by_key")
+                   and "centroids" in show(s.operand(st["args"][0]))]
+        for b, fld, e, span in stores:
+            n_x += 1
+            res.obligations += 1
+            later = [r for r in reorder if r != b and s._reaches(b, r)]
+            if not later:
+                res.discharged += 1
+            else:
+                res.violate(R, "%s|%s|%s" % (R, f.id, fld), "%s folds %s from a positional read of the centroid list (%s) before the list is re-ordered" % (f.id, fld, show(e)[:80]), f.id, span)
+        res.obligations += 1
+        cw = [s.rvalue(rv) for (ff, b, kind, place, rv, span, adt, fld) in sym.field_stores(prog, adt="tdigest::sketch::TDigestMut", field="centroids_weight", fns=[f]) if rv is not None]
+        if any(C.is_bin(x, "Add") and "centroids_weight" in show(x) for x in cw):
+            res.discharged += 1
+        elif cw and not all(x[0] == "const" or (x[0] == "field" and x[2] == "centroids_weight") for x in cw):
+            res.undecided += 1
+        elif not cw and any((st.get("callee") or "").startswith("tdigest::") for _, st in f.calls()):
+            res.undecided += 1
+        else:
+            res.violate(R, "%s|%s|weight" % (R, f.id), "%s does not add the merged weight to centroids_weight" % f.id, f.id)
+    C.pairing_rule(res, prog, R, "tdigest::sketch::TDigestMut", "centroids", "centroids_weight", 3)
+    res.rule(R, n_x, 2, "min/max folds from the centroid list")
+
+
 def sample_digest(rnd):
     n = rnd.choice([1, 2, 2, 3, 4, 6])
     mn, mx = rnd.choice([(0.0, 100.0), (-50.0, 50.0), (10.0, 10.0 + rnd.uniform(0.5, 5))])
@@ -496,40 +535,7 @@ def run(prog, ctx):
             res.violate("C10.B", "C10.B|" + name, "%s is not the %s comparator on the centroid mean: %s" % (name, name.split("_", 1)[1], bad), cf[0].id)
     res.rule("C10.B", n_b, 2, "binary-search comparators")
 
-    # ---------------- C10.X extremes after the final ordering; merged weight added
-    n_x = 0
-    for f in C.fns_of(prog, "tdigest::sketch::TDigestMut"):
-        s = Sym(prog, f, ifconv=False)
-        stores = []
-        for (ff, b, kind, place, rv, span, adt, fld) in sym.field_stores(prog, adt="tdigest::sketch::TDigestMut", fns=[f]):
-            if fld in ("min", "max") and rv is not None:
-                e = C.resolve_var(prog, f, s.rvalue(rv), s)
-                if sym.contains(e, lambda t: t[0] == "index" or (t[0] == "call" and t[1].endswith("index"))) and "centroids" in show(e):
-                    stores.append((b, fld, e, span))
-        if not stores:
-            continue
-        reorder = [b for b, st in f.calls() if (st.get("callee") or "").rsplit("::", 1)[-1] in ("reverse", "sort_by", "sort_unstable_by", "sort", "sort_by_key")
-                   and "centroids" in show(s.operand(st["args"][0]))]
-        for b, fld, e, span in stores:
-            n_x += 1
-            res.obligations += 1
-            later = [r for r in reorder if r != b and s._reaches(b, r)]
-            if not later:
-                res.discharged += 1
-            else:
-                res.violate("C10.X", "C10.X|%s|%s" % (f.id, fld), "%s folds %s from a positional read of the centroid list (%s) before the list is re-ordered" % (f.id, fld, show(e)[:80]), f.id, span)
-        res.obligations += 1
-        cw = [s.rvalue(rv) for (ff, b, kind, place, rv, span, adt, fld) in sym.field_stores(prog, adt="tdigest::sketch::TDigestMut", field="centroids_weight", fns=[f]) if rv is not None]
-        if any(C.is_bin(x, "Add") and "centroids_weight" in show(x) for x in cw):
-            res.discharged += 1
-        elif cw and not all(x[0] == "const" or (x[0] == "field" and x[2] == "centroids_weight") for x in cw):
-            res.undecided += 1
-        elif not cw and any((st.get("callee") or "").startswith("tdigest::") for _, st in f.calls()):
-            res.undecided += 1
-        else:
-            res.violate("C10.X", "C10.X|%s|weight" % f.id, "%s does not add the merged weight to centroids_weight" % f.id, f.id)
-    C.pairing_rule(res, prog, "C10.X", "tdigest::sketch::TDigestMut", "centroids", "centroids_weight", 3)
-    res.rule("C10.X", n_x, 2, "min/max folds from the centroid list")
+    check_extremes(prog, res, "C10.X")
     res.explanation = ("the expression returned at each return site of rank()/quantile() is extracted with the branch decisions of every path to it and "
                        "summaries of the accumulation loops in front of it, and evaluated on %d sampled digest states satisfying the digest invariants; "
                        "range and monotonicity in the query are checked per site" % n_digests)
